@@ -38,7 +38,8 @@ Mutate ==
    number of bytes cut are facts of the concrete run; here the unnarrowed and the
    narrowed sets are both explored by quantifying over them.) *)
 AllowedAny(k, p) ==
-  UNION { Allowed(k, p, ep, sc, cut) : ep \in EntryPoints[k], sc \in { "gen", "file" }, cut \in { 0, 1 } }
+  UNION { Allowed(k, p, ep, sc, cut, len) : ep \in EntryPoints[k], sc \in { "gen", "file" }, cut \in { 0, 1 },
+                                            len \in { 0, 1 } }
 
 Parse ==
   /\ phase = "build"
